@@ -45,7 +45,7 @@ def sx_prog(p):
     if op == "static":
         return f"(static {sx_body(p[1])})"
     if op == "vmap":
-        return f"(vmap {sx_prog(p[1])} ({' '.join('T' if a else 'F' for a in p[2])}))"
+        return f"(vmap {sx_prog(p[1])} ({' '.join(('1' if a == "ax1" else 'T') if a else 'F' for a in p[2])}))"
     if op == "scan":
         return f"(scan {sx_prog(p[1])} {p[2]})"
     if op == "switch":
@@ -260,6 +260,8 @@ def make_case(g: G, depth, opts):
                 ops.append(["idx", s, kk, "regen", g.selection(sub_univ)])
             else:
                 ops.append(["idx", s, kk, "upd", g.constraint(sub_univ, coverage=r.choice([0.0, 0.5, 1.0]))])
+            if r.random() < 0.7:
+                ops.append(["assessSelf"])      # the edited trace's score is still the density of its choices
         elif k == "propose":
             ops.append(["propose", s, cur_args])
         elif k == "subtrace":
@@ -314,7 +316,7 @@ def _mentions(e, k):
 
 def _vec_length(prog, atys):
     if prog[0] == "vmap":
-        return next(t[1] for t, ax in zip(atys, prog[2]) if ax)
+        return next((t[2][1] if ax == "ax1" else t[1]) for t, ax in zip(atys, prog[2]) if ax)
     if prog[0] == "scan":
         return atys[1][1] if atys[1][0] == "arr" else prog[2]
     return 0
@@ -429,6 +431,7 @@ def run_cases(ctx: Ctx, cases, props, label="random", known_sig=None):
             res = _retry_lost(b, res["__worker_lost__"])
         impl += res
     n_bad = 0
+    broken = []
     for case, mresp, im in zip(cases, model, impl):
         ctx.count(case.get("_label", label))
         for ft in features(case):
@@ -463,9 +466,62 @@ def run_cases(ctx: Ctx, cases, props, label="random", known_sig=None):
             diffs.append({"op": -1, "diff": [f"model answered {len(mo)} ops, impl {len(im['results'])}", mresp[:200]]})
         if diffs:
             n_bad += 1
-            ctx.fail("correspondence", _jsonable(case), {"diffs": diffs, "impl": _jsonable(im["results"][diffs[0]["op"]]) if diffs[0]["op"] >= 0 else None},
-                     {"op": diffs[0].get("kind")}, "GFI.run vs implementation")
+            broken.append((case, diffs, im))
+    # A broken correspondence is not by itself a violation: search the neighbourhood of each such
+    # history for an input on which a property predicate fails on the implementation.
+    if broken and not _searching:
+        found = search_neighbours(ctx, [b[0] for b in broken[:12]], props)
+        ctx.notes["neighbour_search"] = {"broken_cases": len(broken), "variants_tried": found[1], "predicate_failures_found": found[0]}
+    for case, diffs, im in broken:
+        ctx.fail("correspondence", _jsonable(case), {"diffs": diffs, "impl": _jsonable(im["results"][diffs[0]["op"]]) if diffs[0]["op"] >= 0 else None},
+                 {"op": diffs[0].get("kind")}, "GFI.run vs implementation")
     return n_bad
+
+
+def _variants(case):
+    """Neighbours of a history: the same program with every prefix of the history, each followed by
+    assess-on-own-choices, project(all / none), and a backward round trip after updates."""
+    ops = case["ops"]
+    out = []
+    for k in range(1, len(ops) + 1):
+        pre = [o for o in ops[:k]]
+        extra = [["assessSelf"], ["proj", "all"], ["proj", "none"]]
+        if pre[-1][0] == "upd":
+            back = _prev_args(pre)
+            if back is not None:
+                tags = ["U"] * len(case["atys"])
+                extra = [["bwd", 4242, back, bool(tags), tags]] + extra
+        v = dict(case)
+        v["ops"] = pre + extra
+        out.append(v)
+    return out
+
+
+def search_neighbours(ctx, cases, props):
+    variants = [v for c in cases for v in _variants(c)]
+    before = len([f for f in ctx.failures if f.kind == "predicate"])
+    global _searching
+    _searching = True
+    try:
+        # predicates only: run on the implementation, ignore the model comparison for the variants
+        res = common.run_impl_parallel("harness.gfi_run", "impl_batch", [[v] for v in variants], procs=max(2, min(8, len(variants) // 4)))
+    finally:
+        _searching = False
+    for v, r in zip(variants, res):
+        if isinstance(r, dict):
+            continue
+        im = r[0]
+        if "fatal" in im:
+            continue
+        for fl in im["preds"]:
+            for f in fl:
+                if f["prop"] in props:
+                    ctx.fail("predicate", _jsonable(v), f, signature(v, f), "property predicate on implementation (neighbour search)")
+    after = len([f for f in ctx.failures if f.kind == "predicate"])
+    return after - before, len(variants)
+
+
+_searching = False
 
 
 def _retry_lost(batch, why):
@@ -563,7 +619,7 @@ def standard_run(ctx: Ctx, props, focus=None, opts=None, n_quick=48, n_thorough=
                 "(args, retval, score, choices, weight, backward constraint) is compared exactly with the Lean model; "
                 "non-trivial = at least one op beyond simulate; distinct by (program, history) text")
     corpus = load_corpus(prop_id) if prop_id else []
-    for e in common.load_known(prop_id or ""):
+    for e in common.load_known(prop_id or "", cross=True):
         if e.get("property") == prop_id and "case" in e.get("replay", {}):
             corpus.append(e["replay"]["case"])
     pending = [dict(c, _label="corpus") for c in corpus]
